@@ -2,7 +2,14 @@
 """Regenerates MANIFEST.json from the table below (run from /verif)."""
 import json, os
 
+T = "Trusts the instrumenter's rewrite rules, Go 1.26.8 synctest, the simulated transport (reliable stream, non-blocking writes) and the harness' own RFC-derived codec and predicates."
 CLAIMED = {
+ "C02": ("deterministic simulation: grammar-generated and mutated OPEN bodies against a quiescent OpenSent FSM, independent acceptability predicate as oracle",
+         "Seeded exploration of OPEN bodies x configurations x directions x TCP segmentations x goroutine schedules through the real reader/FSM/plugin path; the reaction on the wire (KEEPALIVE vs. exactly one applicable NOTIFICATION then close), OnOpenMessage arguments and OnEstablished are compared with a predicate written from the property statement. Boundary values of every field and every structural corruption class are hit many times per run (see probes); the input space is sampled, not enumerated.", T, "DESIGN.md 4 C02"),
+ "C08": ("deterministic simulation: faulty headers (every marker octet, boundary lengths, unknown types) after k good messages in every state, adversarial segmentation; plugin-returned NOTIFICATION fidelity",
+         "Seeded exploration: streams of well-formed messages followed by one faulty header and a trailing UPDATE are delivered in tape-chosen segments to a real FSM in OpenSent/OpenConfirm/Established; the oracle demands that earlier messages took effect, exactly one NOTIFICATION (1,1)/(1,2)/(1,3 with the type octet) is sent, the connection is closed and the trailing UPDATE is never delivered. NOTIFICATIONs returned by the plugin with boundary data lengths must arrive byte-exact. Boundaries are favoured by the generator; the header space is sampled.", T, "DESIGN.md 4 C08"),
+ "C14": ("deterministic simulation: configuration and capability-list grid, strict independent OPEN parser on the first frame of every connection across reconnects",
+         "Seeded exploration of (local AS, hold time, router id, per-call plugin capability lists incl. code 65 and values > 255 bytes) over successive connections in both directions; the first frame of each connection is parsed by an independent strict parser and compared field by field with the configuration and with the capability list of the GetCapabilities call that preceded it. Unrepresentable lists must produce no bytes or a well-formed OPEN.", T, "DESIGN.md 4 C14"),
  # id: (technique, level text, level note, design ref)
  "C09": ("deterministic simulation: full (state x message x direction) reaction table against the instrumented FSM, quiescent-point wire oracle",
          "Seeded exploration: every cell of {OpenSent,OpenConfirm,Established} x {OPEN,UPDATE,NOTIFICATION,KEEPALIVE,FIN,RST} x {in,out} is driven end-to-end through the real FSM under a tape-controlled goroutine schedule and TCP segmentation; the reaction observed on the wire and in the plugin log at the next quiescent point is compared with the RFC 4271 8.2.2 / RFC 6608 table. All 36 cells are hit thousands of times per quick run; NOTIFICATION contents and schedules are sampled, so this is evidence, not proof.",
